@@ -135,6 +135,13 @@ def rules(ctx):
     depot_limits(ctx)      # a candidate is a valid schedule: depot capacity is tested on the usage the candidate will have
     for ob in ctx.obligations[before:]:
         ob.id = ob.id.replace("C11/R", "C11/R4.depots.R")
+    from .C01 import type_guards
+    before = len(ctx.obligations)
+    type_guards(ctx)       # a candidate is a valid schedule: a vehicle only gets trips of its own type, also from a dummy tour
+    for ob in ctx.obligations[before:]:
+        ob.id = ob.id.replace("C11/R", "C11/R4.types.R")
+    from .C06 import overflow_covers_maintenance
+    overflow_covers_maintenance(ctx, "R2")     # spawning for maintenance never runs out of depots (it would panic)
     o = ctx.ob("R3.swaps-return-api-results", "T1", SWAP_TRAIT, "each swap's candidate comes out of the schedule modification API")
     bad = []
     for k in keys:
